@@ -369,6 +369,6 @@ let () =
   try
     while true do
       let line = input_line stdin in
-      if String.trim line <> "" then print_endline (dispatch line)
+      if String.trim line <> "" then (print_endline (dispatch line); flush stdout)
     done
   with End_of_file -> ()
